@@ -146,8 +146,9 @@ def run(ctx):
     for p in [p for p in ps if p.kind == "ret" and U.is_ok(p.ret)]:
         dig = [e for e in p.effects if "Digest>::digest" in e[0] or e[0].endswith("::digest")]
         good = len(dig) == 1
-        good = good and D.show(dig[0][1][0]) == f"String::as_bytes({J})"
-        good = good and D.show(p.ret) == f"Result::Ok(Base64::new({D.show(dex_ret(dig[0]))}))"
+        good = good and U.strip_views(D.show(dig[0][1][0])) == J
+        mret = re.fullmatch(r"Result::Ok\(Base64::new\((.*)\)\)", D.show(p.ret))
+        good = good and mret is not None and U.strip_views(mret.group(1)) in (D.show(dex_ret(dig[0])), f"Digest::digest({D.show(dig[0][1][0])})")
         ctx.check(good, "C05.content_hash", "C05.content_hash:pipeline", w.where(f), bad_msg=f"hash input / result is {D.show(p.ret)}"[:300])
     sig = f["sig"]
     ctx.check("Base64<ruma_common::serde::base64::Standard, [u8; 32]>" in sig, "C05.content_hash", "C05.content_hash:encoding", w.where(f),
@@ -170,7 +171,7 @@ def run(ctx):
         dig = [e for e in p.effects if e[0].endswith("Digest>::digest")]
         eng = [e for e in p.effects if e[0].endswith("GeneralPurpose::new")]
         enc = [e for e in p.effects if e[0].endswith("Engine::encode")]
-        good = len(dig) == 1 and D.show(dig[0][1][0]) == f"String::as_bytes({J})" and len(eng) == 1 and len(enc) == 1
+        good = len(dig) == 1 and U.strip_views(D.show(dig[0][1][0])) == J and len(eng) == 1 and len(enc) == 1
         if not good:
             ctx.violation("C05.reference_hash", "C05.reference_hash:pipeline", w.where(f), f"unexpected pipeline: {D.show(p.ret)}"[:300])
             continue
